@@ -28,7 +28,7 @@ def gen_rule(rng, family, finite_only=False):
     elif family == 1:
         spec = [[v, rng.pick([0, 1, 5, 10 ** 6])] for v in range(rng.pick([0, 0, 1, 3]))]
         d = {"res": res, "metric": rng.pick([0, 1]), "ctrl": rng.pick([0, 1]), "idx": rng.pick([-3, -1, 0, 0, 1, 3]),
-             "key": rng.pick([0, 0, 1, 2]), "thr": rng.pick([0, 1, 5, 10 ** 6]), "maxq": rng.pick([0, 1, 2000]),
+             "key": rng.pick([0, 0, 1, 2]), "thr": rng.pick([0, 1, 5, 10 ** 6, 2 ** 53 + 1, 2 ** 64 - 2]), "maxq": rng.pick([0, 1, 2000]),
              "burst": rng.pick([0, 1, 10 ** 6]), "dur": rng.pick([0, 1, 1, 3, 600]), "cap": rng.pick([0, 0, 1, 100]),
              "spec": spec}
         toks = [1, d["res"], d["metric"], d["ctrl"], d["idx"], d["key"], d["thr"], d["maxq"], d["burst"], d["dur"], d["cap"],
